@@ -133,9 +133,14 @@ class Seam:
         idx = len(self.calls)
         if idx >= self.budget:
             raise SeamBudget("more than %d random draws" % self.budget)
-        mode = self.script.get(idx, "ID")
+        mode = self.script.get(idx, "NET")
         self.calls.append(("randperm", int(n), 1, mode if isinstance(mode, str) else "PERM"))
-        if mode in ("ID", "NET"):
+        if mode == "NET":
+            # default answer: a fixed quasi-random permutation (ranks of the next net coordinate); "ID" must be asked for
+            c0 = self.coord.get("all", 0)
+            self.coord["all"] = c0 + 1
+            p = torch.argsort(net(int(n), c0, 1)[:, 0]).tolist() if n else []
+        elif mode == "ID":
             p = list(range(n))
         elif mode == "REV":
             p = list(range(n))[::-1]
